@@ -129,6 +129,8 @@ def h_net_new(w, st, rec):
             if d.ndim == 2 and d.flags.f_contiguous and not d.flags.c_contiguous:
                 w.probes["data.fortran_order"] += 1
     pgraph, pdata = dec(rec["graph"]), [dec(d) for d in rec["data"]]       # the checker's private copy
+    if rec.get("shared_upstream"):
+        w.probes["data.environments_share_upstream_columns"] += 1
     kind = rec.get("invalid")
     site = "DRFNet.__init__"
     if kind:
@@ -704,8 +706,25 @@ def h_lib_call(w, st, rec):
     return outcome_digest(*out), out
 
 
+def h_net_drop(w, st, rec):
+    """The application lets go of a network (and of what it got from it); the garbage collector runs."""
+    import gc
+    net = st.nets.pop(rec["net"], None)
+    if net is None:
+        raise Skip()
+    for k in [k for k in st.results]:
+        if rec.get("results_too"):
+            del st.results[k]
+    net.clear()
+    del net
+    gc.collect()
+    w.probes["net.dropped"] += 1
+    w.faults["gc"] += 1
+    return "ok:-", None
+
+
 HANDLERS = {"peer.config": h_peer_config, "net.new": h_net_new, "net.sample": h_net_sample,
-            "fault.scribble": h_scribble, "lib.call": h_lib_call}
+            "fault.scribble": h_scribble, "lib.call": h_lib_call, "net.drop": h_net_drop}
 
 
 def execute(sempler, run_seed, ops, pristine_budget=2):
@@ -984,10 +1003,58 @@ def generate(run_seed, deep=False):
                 ops.append({"c": c, "op": "py.import", "module": g.choice(IMPORTABLE)})
             else:
                 ops.append({"c": c, "op": "gc"})
+    shared_upstream(st["shared_upstream"], ops)
+    drop_and_rebuild(st["netdrop"], ops, cfg)
     G.bitgen_variation(st["bitgen"], ops)
     G.generator_seed_variation(st["genseed"], ops, lambda r: r.get("op") == "net.sample" and not r.get("invalid"))
     np_star_faults(st["np_star"], ops)
     return cfg, ops
+
+
+def shared_upstream(f, ops):
+    """Environments that differ only in the variables that were intervened on: in some networks every later
+    environment repeats environment 0 except for a few columns, which get values of their own (so a node can have
+    the very same parent columns in two environments and different responses).  Decided by a stream of its own, after
+    generation."""
+    for rec in ops:
+        if rec.get("op") != "net.new" or rec.get("invalid") or len(rec["data"]) < 2:
+            continue
+        r = f.random()
+        d0 = dec(rec["data"][0])
+        N, p = d0.shape
+        plan = [(f.sample(range(p), f.randint(1, max(1, p // 2))), f.sample(range(N), N)) for _ in rec["data"][1:]]
+        if r >= 0.15 or d0.dtype.kind not in "fi":
+            continue
+        for k, (changed, perm) in enumerate(plan, start=1):
+            new = d0.copy()
+            for i in changed:
+                new[:, i] = (1000.0 * (k + 1) + 10.0 * np.array(perm) + i).astype(d0.dtype)
+            rec["data"][k] = enc(new)
+        rec["shared_upstream"] = True
+
+
+def drop_and_rebuild(f, ops, cfg):
+    """Object churn in a long-lived process: in some runs the session ends with the application dropping a network and
+    building another one of the same shape from other data (forests and frames of the new one are likely to sit
+    where those of the old one were), then sampling from it.  Decided by a stream of its own, after generation."""
+    news = [r for r in ops if r.get("op") == "net.new" and not r.get("invalid") and not r.get("peer_fault")]
+    r, rounds = f.random(), f.randint(1, 3)
+    if r >= 0.12 or not news or cfg.get("big"):
+        return
+    old = f.choice(news)
+    c = old.get("c", 0)
+    prev = old["id"]
+    for k in range(rounds):
+        new = copy.deepcopy(old)
+        new["id"] = "%s.again%d" % (old["id"], k + 1)
+        new["data"] = [enc((dec(d) + 5000 * (k + 1)).astype(dec(d).dtype)) for d in old["data"]]
+        new.pop("arm", None)
+        ops.append({"c": c, "op": "net.drop", "net": prev, "results_too": True})
+        ops.append(new)
+        seed = f.choice([0, 1, f.getrandbits(32)])
+        for _ in range(2):
+            ops.append({"c": c, "op": "net.sample", "net": new["id"], "n": f.choice([None, f.randint(1, 30)]), "seed": seed})
+        prev = new["id"]
 
 
 def np_star_faults(f, ops):
